@@ -239,7 +239,11 @@ class Message:
         while not unpacker.is_done():
             avps.append(Avp.from_unpacker(unpacker))
 
+        command_flags = header.command_flags
         msg = msg_type(header, avps)
+        # command classes apply their default flags when instantiated; a
+        # message parsed from the network keeps the flags that it arrived with
+        msg.header.command_flags = command_flags
 
         return msg
 
